@@ -20,8 +20,8 @@ CLAIMED = {
  "C03": ("Bounded model checking of encode/decode round trips: every encoder (Ethernet, IPv4, IPv6, UDP, ARP, ICMP echo, NDP NA/NS, DNS query, DHCPv4 with arbitrary options and order lists) is executed symbolically with all field values symbolic, symbolic payload lengths and symbolic buffer capacities; the result is decoded by the library's own views and by reference extraction at RFC positions and asserted equal; AppendPayload returns ErrPayloadTooBig exactly when the payload exceeds the remaining capacity (any out-of-capacity store is a panic obligation); composed Ether/IP/UDP frames are classified by the real Parse.",
          "Trusted: go/ssa, gse semantics, z3, reference extraction helpers. Bounds in evidence.bounds (DHCP option sets are small; all map iteration orders explored).",
          "DESIGN.md §4 C03", "bounded symbolic execution of encoders + decoders, SMT-decided round-trip equalities, layered arrays for symbolic-length payloads"),
- "C08": ("Bounded model checking of the payload-level decoders (DNS name/question/answer decoding, NDP options, hop-by-hop extensions, DHCP options, LLDP TLVs, 802.3/LLC processing) on arbitrary or field-corrupted, truncated inputs: every panic condition, every possible repetition of a loop state (non-termination) and every unwinding bound is an SMT obligation; violations are replayed natively (hangs by a watchdog).",
-         "Trusted: go/ssa, gse semantics, z3. Partial: the handler-level ProcessPacket functions (ARP, DHCPv4, ICMPv6, DNS/mDNS/NBNS, SSDP) are not encoded; DNS inputs are templates with one (quick) or two (thorough) arbitrary fields; buffer lengths are small (evidence.bounds).",
+ "C08": ("Bounded model checking of the payload-level decoders (DNS name/question/answer decoding, NDP options, hop-by-hop extensions, DHCP options, LLDP TLVs, 802.3/LLC processing) on arbitrary or field-corrupted, truncated inputs: every panic condition, every possible repetition of a loop state (non-termination) and every unwinding bound is an SMT obligation; violations are replayed natively (hangs by a watchdog). Handler level: the ICMPv6 and ICMPv4 handlers' ProcessPacket on every accepted frame with an arbitrary ICMP message of up to 24 / 16 (thorough 32) bytes, the DHCP handler's ProcessPacket on every DHCPv4 frame with arbitrary BOOTP fields and up to 5-6 arbitrary option bytes in both directions; ARP ProcessPacket on every valid ARP frame (C13), naming handlers on structured messages (C17).",
+         "Trusted: go/ssa, gse semantics, z3. Partial: mDNS / NBNS / SSDP processing on unstructured bytes is not encoded (dnsmessage, net/http); DNS inputs are templates with one (quick) or two (thorough) arbitrary fields; buffer lengths are small (evidence.bounds).",
          "DESIGN.md §4 C08", "bounded symbolic execution with SMT-decided panic / loop-state-repetition obligations, index case-splitting"),
  "C16": ("Bounded model checking: (a) on every path of Parse over all frames of length 0..1536 each returned view aliases the caller's buffer (same backing object) at the reference decoder's offset and stays inside the frame; (b) for every well-formed frame from an already tracked online host (IPv4, IPv6 link-local, ARP) the reachability of every allocating SSA instruction inside Parse is an SMT query that must be unsat; a reachable site is replayed natively with the runtime's malloc counter.",
          "Trusted: go/ssa, gse semantics, z3. Allocation is decided at SSA level (heap Alloc in repository code, make, closures, boxing, growing append, string conversions, go, fmt.Errorf); the gc compiler's escape analysis is outside the model.",
